@@ -146,9 +146,11 @@ def sim_thread_start(self):
     k = kernel()
     if getattr(self, "_task", None) is not None:
         raise RuntimeError("threads can only be started once")
-    k.event("thread.start", getattr(self, "name", "") or "")
+    # (thread names such as "Thread-7" come from a process-global counter:
+    # never let them into the event log)
+    k.event("thread.start", type(self).__name__)
     k.count("thread_started")
-    self._task = k.spawn(self.run, "thr:%s" % (getattr(self, "name", "") or type(self).__name__),
+    self._task = k.spawn(self.run, "thr:%s" % type(self).__name__,
                          daemon=bool(getattr(self, "daemon", False)))
 
 
@@ -176,7 +178,12 @@ class SimTimer(SimThread):
         self.args = args or []
         self.kwargs = kwargs or {}
         self._cancelled = False
+        self._fired = False
         self.daemon = True
+        k = kernel()
+        if not hasattr(k, "sim_timers"):
+            k.sim_timers = []
+        k.sim_timers.append(self)
 
     def cancel(self):
         kernel().event("timer.cancel")
@@ -187,6 +194,7 @@ class SimTimer(SimThread):
         k.block_until(lambda: self._cancelled, timeout=self.interval,
                       desc="timer")
         if not self._cancelled:
+            self._fired = True
             k.event("timer.fire")
             k.count("timer_fired")
             self.function(*self.args, **self.kwargs)
